@@ -15,7 +15,7 @@ pub fn run(ctx: &mut Ctx, reg: &Registry) {
             continue;
         };
         let s = Subject { e, label: name.to_string(), index: 0 };
-        let vals = gen_values(ctx, e, &mut rng, ctx.t(2, 4), 0);
+        let vals = gen_values(ctx, e, &mut rng, ctx.t(3, 4), 0);
         for v in vals.iter() {
             job += 1;
             if !ctx.mine(job) {
